@@ -230,6 +230,7 @@ type PNet struct {
 	armKind  string
 	booting  bool
 	bootW    int
+	offers, offersAccepted int
 	imageSeq int
 	crashes  int
 	restarts int
@@ -726,6 +727,7 @@ func runPersist(o *Opts) *Summary {
 	s := &Summary{Mode: "persist", Extra: map[string]interface{}{}}
 	var w *World
 	totCrash, totRestart, totReads, totWrites := 0, 0, 0, 0
+	totOffers := 0
 	kinds := map[string]int{}
 	for t := 0; t < o.Traces; t++ {
 		nn := o.N
@@ -771,6 +773,12 @@ func runPersist(o *Opts) *Summary {
 				continue
 			}
 			a, b := cn.byNum[ai], cn.byNum[bi]
+			if k%23 == 11 {
+				// a Byzantine validator offers an event that skips an index: refused, and
+				// the refusal must leave nothing behind in the database (no hole in the
+				// topological listing that a later bootstrap would stop at)
+				pn.offerIndexSkip(a)
+			}
 			if k >= nextEvent {
 				nextEvent = k + 15 + w.rng.Intn(40)
 				switch w.rng.Intn(5) {
@@ -850,6 +858,7 @@ func runPersist(o *Opts) *Summary {
 			totWrites += pn.writes[n.num]
 		}
 		totCrash += pn.crashes
+		totOffers += pn.offers
 		totRestart += pn.restarts
 		totReads += pn.reads
 		s.Steps += cn.steps
@@ -881,6 +890,7 @@ func runPersist(o *Opts) *Summary {
 	s.Extra["store_reads_checked"] = totReads
 	s.Extra["db_writes"] = totWrites
 	s.Extra["crash_kinds"] = kinds
+	s.Extra["index_skip_offers"] = totOffers
 	w.CloseTrace()
 	return s
 }
@@ -948,4 +958,37 @@ func coordStr(w *World, m hg.CoordinatesMap) string {
 	}
 	sort.Strings(r)
 	return strings.Join(r, " ")
+}
+
+// offerIndexSkip: a correctly signed event of another participant, on top of
+// that participant's last event as node a knows it, with index = last + 2.
+func (pn *PNet) offerIndexSkip(a *CNode) {
+	known := a.core.KnownEvents()
+	for _, p := range pn.w.parts {
+		if p.Num == a.num {
+			continue
+		}
+		idx, ok := known[p.ID]
+		if !ok || idx < 0 {
+			continue
+		}
+		last, err := a.store.LastEventFrom(p.Peer.PubKeyString())
+		if err != nil || last == "" {
+			continue
+		}
+		ev := hg.NewEvent([][]byte{[]byte("index-skip")}, nil, nil, []string{last, ""}, p.Pub, idx+2)
+		if err := ev.Sign(p.Key); err != nil {
+			return
+		}
+		pn.cur = nil
+		ierr := a.core.InsertEventAndRunConsensus(ev, true)
+		pn.w.Emit(a.num, "Note", map[string]interface{}{"what": "index-skipping event offered", "creator": p.Num, "index": idx + 2},
+			map[string]interface{}{"refused": ierr != nil})
+		pn.offers++
+		if ierr == nil {
+			pn.offersAccepted++
+		}
+		pn.flushWrites(a)
+		return
+	}
 }
